@@ -6,7 +6,7 @@ Engine A (ring domain, trig functions as opaque function symbols) decides:
       turns(x).to_turns() = x (as rational functions in the unit constants);
       degs(x).to_rads() = x * RADS_PER_DEG; the compile-time constants agree:
       360 * RADS_PER_DEG = RADS_PER_TURN = 2*pi to f32 precision
-  U2  +, -, unary -, * f32, / f32 on Angle act on the underlying magnitude;
+  U2  +, -, unary -, %, * f32, / f32 on Angle act on the underlying magnitude;
       min/max/clamp delegate to the f32 operations on the magnitudes
   U3  wrap(a, min, max) = min + rem_euclid(a - min, max - min): the result
       differs from the input by rem_euclid's multiple of the interval length and
@@ -105,6 +105,10 @@ def check_config(rep, prog):
     p = "retrofire_core::<math::angle::Angle as core::ops::arith::Div<f32>>::div"
     it, r = run(p, [a, S.sym("k")])
     req(S.ratio_eq(S.to_ratio(mag(it, r)), ({("a",): Fraction(1)}, {("k",): Fraction(1)})), "U2", "Div", prog.body(p).where(), "a / k divides the magnitude")
+    p = "retrofire_core::<math::angle::Angle as core::ops::arith::Rem>::rem"
+    it, r = run(p, [a, b])
+    req(mag(it, r) == ("symop", "Rem", S.sym("a"), S.sym("b")), "U2", "Rem", prog.body(p).where(),
+        "a % b is the float remainder (sign of the dividend) of the magnitudes, not another remainder function")
     for meth, fn in (("min", "fmin"), ("max", "fmax")):
         it, r = run(ANG + "Angle::" + meth, [a, b])
         req(mag(it, r) == ("symop", fn, S.sym("a"), S.sym("b")), "U2", meth, prog.body(ANG + "Angle::" + meth).where(), "a.%s(b) = Angle(f32::%s(a, b))" % (meth, meth))
